@@ -107,7 +107,7 @@ def check_congruence(desc):
             R = np.asarray(R)
             if A.shape != R.shape:
                 _fail(f"shape/{fam}_{op}", f"{A.shape} vs {R.shape}")
-            err = og.relerr(A, R)
+            err = og.relerr(A, R, og.entry_floor(g, fam, op))
             worst = max(worst, err)
             if err > TOL:
                 i, j = np.unravel_index(np.argmax(np.abs(A - R)), A.shape)
